@@ -217,6 +217,9 @@ func (s *V2Session) buildAndSend(ctx context.Context, c ipmi.Command) error {
 		if s.v2SessionLayer.ID != s.LocalID {
 			return errWrongSessionResponse
 		}
+		if !isResponseTo(&s.messageLayer.Operation, c.Operation()) {
+			return errUnexpectedResponse
+		}
 		code := s.messageLayer.CompletionCode
 		// must increment here, otherwise we'll miss temporary codes at the
 		// higher levels
